@@ -311,7 +311,9 @@ def add_attributes(self: "ProvRecord", attributes: "Seq[Tup[Val,Val]]") -> "none
     assert_at("continue", "same-value-already-stored",
               implies(NormalPair(pair(attr_name, original_value)) and not is_none(original_value),
                       vs_has(qm_get(self._attributes, as_qn(attr_name).uri), ck(original_value))))
-    invariant("L1", "attrs-wf", AttrsWF(self))
+    invariant("L1", "attrs-wf", AttrsKeysWF(self))
+    invariant("L1", "attrs-wf-representatives", AttrsRepsWF(self))
+    invariant("L1", "attrs-wf-sizes", AttrsSizeWF(self))
     invariant("L1", "formal-single", FormalSingle(self))
     invariant("L1", "stored-ok", AllStoredOK(self))
     invariant("L1", "keys-ok", KeysOK(self))
